@@ -109,6 +109,9 @@ def build(case):
                 for n in range(len(mcs)):
                     vals[f"ms.{n+1}"] = [2.0, 0.5][n % 2]
                 d["megacomplex_scale"] = [f"ms.{n+1}" for n in range(len(mcs))]
+        if case.get("neg_scale") and len(mcs) > 1:  # a negative megacomplex scale: the add-on's columns are entirely negative
+            vals.update({"ms.1": 1.0, "ms.2": -1.5})
+            d["megacomplex_scale"] = ["ms.1", "ms.2"]
         if mode == "full":
             d["global_megacomplex"] = ["mg"]
             if case.get("axis_scale"):
@@ -316,6 +319,10 @@ def run(run: core.Run):
         for nds in (1, 2):
             cases.append({"kinetics": kin, "irf": irf, "addon": addon, "mode": "clp", "nds": nds, "scale": nds == 2, "coords": "standard",
                           "pset": 0, "noise": False, "nnls": True})  # fmt: skip
+    for kin, irf in (("sequential", "none"), ("parallel", "gaussian"), ("single", "none")):
+        for nnls in (True, False):
+            cases.append({"kinetics": kin, "irf": irf, "addon": "baseline", "mode": "clp", "nds": 2, "scale": True, "coords": "standard",
+                          "pset": 0, "noise": False, "nnls": nnls, "neg_scale": True})  # fmt: skip
     # one-column matrices, explicitly unlinked / linked groups, and twin datasets (same megacomplexes, irf and axes,
     # different initial concentration / megacomplex scale)
     for kin, irf, addon in itertools.product(("single", "sequential", "parallel", "decay"), ("none", "gaussian"), ("none", "baseline")):
